@@ -9,6 +9,8 @@ def gs(e, fns, **kw):
                     unwind=kw.pop("unwind", 12), timeout=600, dfcc=False, object_bits=12, defs=["-DSTRINGSIZE=64"], functions=fns, **kw))
 gs("SymbolAdder", ["SymbolAdder"])
 gs("LookupSymbol", ["LookupSymbol"], bounded="fixed plain name, global scope")
+gs("FindNode", ["FindNode", "FindNode_FNode", "FindNode_FSpec"], bounded="section nesting depth <= 2, fixed two-letter name",
+   note="a reference resolves to the innermost definition; a FORWARD-announced name is looked up in its own section only during the early passes, so that it stays unknown (and requests a pass) instead of silently binding to an outer symbol of the same name")
 GROUPS.append(G("fix_label_fixup", LAB, "h_label_fixup", enforce=[], link=["asmdef.c"], stubs=["stubs/gerr.c"], unwind=8, timeout=300, dfcc=False,
                 object_bits=10, functions=["LabelHandle", "LabelModify"]))
 GROUPS.append(G("fix_label_fixup:finding", LAB, "h_label_fixup", enforce=[], link=["asmdef.c"], stubs=["stubs/gerr.c"], unwind=8, timeout=300, dfcc=False,
